@@ -156,7 +156,7 @@ func recvExpr(in *Input, tn string, v RV, top bool) string {
 				f = &t.Fields[i]
 			}
 		}
-		if f == nil || k.V.Nil {
+		if f == nil || k.V.Nil || f.Foreign != "" {
 			continue
 		}
 		e := recvExpr(in, k.Name, k.V, false)
@@ -258,6 +258,7 @@ func (prop) Run(raw json.RawMessage, scratch string) core.Result {
 		res.Notes = append(res.Notes, "bad input: "+err.Error())
 		return res
 	}
+	normalize(&in)
 	obs := observed{Exec: "fail"}
 	fail := func(msg string) core.Result {
 		res.GoViolations = append(res.GoViolations, msg)
@@ -288,6 +289,18 @@ func (prop) Run(raw json.RawMessage, scratch string) core.Result {
 
 	// 1. the real Execute
 	out, err := runCmd(mod, 90*time.Second, self, "c16-exec", "./p")
+	if in.Broken {
+		// malformed stream: Execute has to fail cleanly (no crash, no timeout) and write nothing
+		res.Observed = map[string]any{"broken": true, "log": tail(out, 300)}
+		res.Tags = append(res.Tags, "malformed_source")
+		if err == nil || !(strings.Contains(out, "NEWCONTEXT-ERROR") || strings.Contains(out, "EXECUTE-ERROR")) {
+			res.Notes = append(res.Notes, "source with a syntax error: Execute did not fail cleanly: "+firstLine(out, err))
+		}
+		if _, serr := os.Stat(filepath.Join(pdir, "zz_generated.runtimedoc.go")); serr == nil {
+			res.GoViolations = append(res.GoViolations, "a file was generated for a package that does not parse")
+		}
+		return res
+	}
 	if err != nil {
 		obs.ExecLog = tail(out, 1500)
 		return fail("Execute failed on a package of the property's domain: " + firstLine(obs.ExecLog, err))
@@ -341,8 +354,8 @@ func (prop) Run(raw json.RawMessage, scratch string) core.Result {
 	if !in.KnownOnly {
 		for i, q := range qs {
 			t := in.lookup(q.Type)
-			if t == nil || !covered(t) || !rs[i].Has || rs[i].Panic {
-				if t != nil && covered(t) && !rs[i].Has {
+			if t == nil || !in.covered(t) || !rs[i].Has || rs[i].Panic {
+				if t != nil && in.covered(t) && !rs[i].Has {
 					res.GoViolations = append(res.GoViolations, fmt.Sprintf("covered type %s has no RuntimeDoc method", q.Type))
 				}
 				continue
@@ -354,6 +367,12 @@ func (prop) Run(raw json.RawMessage, scratch string) core.Result {
 					continue
 				}
 				want = docOf(t.Name, rawDoc(t.Doc))
+			case t.Kind != "struct":
+				if rs[i].Ok || len(rs[i].Doc) > 0 {
+					res.GoViolations = append(res.GoViolations, fmt.Sprintf("(*%s).RuntimeDoc(%q) = %q, %v on a type without fields; the property says (nil, false)",
+						q.Type, q.Names, rs[i].Doc, rs[i].Ok))
+				}
+				continue
 			default:
 				f := ownListed(t, q.Names[0])
 				if f == nil {
@@ -489,7 +508,7 @@ func tagsOf(in *Input, res *core.Result) {
 		if t.Generic {
 			tags["generic"] = true
 		}
-		if t.Disabled {
+		if !in.enabled(t) {
 			tags["type_disabled"] = true
 		}
 		if !token.IsExported(t.Name) {
@@ -510,6 +529,9 @@ func tagsOf(in *Input, res *core.Result) {
 				tags["field_inline_struct"] = true
 			case f.Class == "empty":
 				tags["field_empty_struct"] = true
+			}
+			if f.Foreign != "" {
+				tags["embedded_foreign"] = true
 			}
 			if f.Embedded && len(raw(f.Doc)) > 0 {
 				tags["embedded_with_doc"] = true
@@ -540,6 +562,9 @@ func tagsOf(in *Input, res *core.Result) {
 	}
 	if in.KnownOnly {
 		tags["known_only"] = true
+	}
+	if in.NoPkgTag {
+		tags["package_not_tagged"] = true
 	}
 	if in.Grouped {
 		tags["grouped_decl"] = true
